@@ -1508,8 +1508,9 @@ Proof.
   rewrite E, Z.eqb_refl. reflexivity.
 Qed.
 
-(* zkmod: Proof.IsValid is never called by Verify, so X and Z are not range checked: adding N to a response of an
-   accepted proof gives an accepted proof with a response outside [0, N).  Witness: N = 7 * 11, w = 2. *)
+(* zkmod: before the fix "zkmod.Verify validates W and the responses" Proof.IsValid was never called by Verify, so X and
+   Z were not range checked: adding N to a response of an accepted proof gave an accepted proof with a response
+   outside [0, N).  Witness for the old verifier [mod_verify_v0]: N = 7 * 11, w = 2. *)
 Definition mod_example_ys : list Z := [5; 10; 31; 76].
 Definition mod_example_rs : list (bool * bool * Z * Z) := mod_respond 7 11 2 mod_example_ys.
 Definition mod_shift (n : Z) (r : bool * bool * Z * Z) : bool * bool * Z * Z :=
@@ -1518,16 +1519,36 @@ Definition mod_shift (n : Z) (r : bool * bool * Z * Z) : bool * bool * Z * Z :=
 Lemma mod_example_honest : mod_verify 77 2 mod_example_rs mod_example_ys = Some true.
 Proof. vm_compute. reflexivity. Qed.
 
-Theorem mod_response_range_refuted :
+Theorem mod_v0_response_range_refuted :
   exists n w rs ys,
-    mod_verify n w rs ys = Some true /\
-    Forall (fun r : bool * bool * Z * Z => let '(_, _, x, z) := r in ~ (0 <= x < n) /\ ~ (0 <= z < n)) rs /\ rs <> [].
+    mod_verify_v0 n w rs ys = Some true /\
+    Forall (fun r : bool * bool * Z * Z => let '(_, _, x, z) := r in ~ (0 <= x < n) /\ ~ (0 <= z < n)) rs /\ rs <> [] /\
+    mod_verify n w rs ys = Some false.
 Proof.
   exists 77, 2, (map (mod_shift 77) mod_example_rs), mod_example_ys. split; [vm_compute; reflexivity|].
-  split; [|discriminate].
+  split; [|split; [discriminate | vm_compute; reflexivity]].
   replace (map (mod_shift 77) mod_example_rs)
     with ltac:(let l := eval vm_compute in (map (mod_shift 77) mod_example_rs) in exact l) by (vm_compute; reflexivity).
   repeat constructor; lia.
+Qed.
+
+(* the current verifier: every X and Z must lie in [1, N) (and be a unit) *)
+Lemma valid_big_range n x : valid_big n x = true -> 0 < x < n.
+Proof.
+  unfold valid_big. rewrite !andb_true_iff, !Z.ltb_lt. tauto.
+Qed.
+
+Theorem mod_range_enforced n w rs ys :
+  Exists (fun r : bool * bool * Z * Z => let '(_, _, x, z) := r in ~ (0 < x < n) \/ ~ (0 < z < n)) rs ->
+  mod_verify n w rs ys = Some false.
+Proof.
+  intro HE. assert (E : forallb (mod_resp_valid n) rs = false).
+  { induction HE as [[[[a b] x] z] l H|r l _ IH]; cbn [forallb].
+    - unfold mod_resp_valid. destruct (valid_big n x) eqn:Ex, (valid_big n z) eqn:Ez; try reflexivity.
+      apply valid_big_range in Ex, Ez. tauto.
+    - rewrite IH. apply andb_false_r. }
+  unfold mod_verify. rewrite E. unfold guard.
+  repeat match goal with |- (if ?b then _ else _) = _ => destruct b end; reflexivity.
 Qed.
 
 (* ================================================================================================ *)
